@@ -14,6 +14,10 @@ from . import c04
 _SCHEMA_N = [0]
 
 
+def _not_json(tok):
+    raise ValueError(f"the token {tok} is not JSON")
+
+
 def check_hugr(ctx: Ctx, focus: str, h, case, sig0: dict, expected_doc=None, foreign_doc=None, exact_order: bool = False) -> bool:
     """All document-level checks on one real Hugr. focus in {'C02','C03','C05'} selects what is reported.
     Returns True if a violation was recorded."""
@@ -28,12 +32,22 @@ def check_hugr(ctx: Ctx, focus: str, h, case, sig0: dict, expected_doc=None, for
     except Exception as e:  # noqa: BLE001
         return bad("to_json raised", "a document", repr(e)[:300], "Serialize")
     if focus == "C03":
+        try:            # a specification-conformant reader parses RFC 8259 JSON: no NaN / Infinity tokens
+            json.loads(text, parse_constant=_not_json)
+        except ValueError as e:
+            return bad("strict JSON", "RFC 8259 text", str(e)[:200], "the document is JSON")
+    if focus == "C03":
         errs = S.schema_errors(d1)
         if errs:
             return bad("published strict schema", "valid", errs, "schema")
         probs = S.index_sane(d1)
         if probs:
             return bad("index sanity", "sane", probs[:3], "HugrSerial!IndexSane")
+    if expected_doc is not None and focus == "C05":
+        # the encoded graph carries every node's metadata on that node
+        diff = S.same_doc(expected_doc, d1)
+        if diff and "metadata" in diff:
+            return bad("metadata in the encoded graph", "HugrSerial!Serialize", diff, "HugrSerial!Serialize (metadata)")
     if expected_doc is not None and focus in ("C02", "C03"):
         diff = S.same_doc(expected_doc, d1)
         if diff:
@@ -187,6 +201,7 @@ def run_random_histories(ctx: Ctx, focus: str, quick: bool) -> None:
         nxt = {1: 1, 2: 1}
         links = {1: [], 2: []}
         ok = True
+        stray = None
         for _ in range(rng.randint(5, 40)):
             i = 1 if rng.random() < 0.8 else 2
             r = rng.random()
@@ -207,6 +222,11 @@ def run_random_histories(ctx: Ctx, focus: str, quick: bool) -> None:
                 if (s[1] == -1) != (d[1] == -1):
                     continue
                 ev = {"a": "AddLink", "i": i, "sn": s[0], "so": s[1], "dn": d[0], "do": d[1]}
+                if rng.random() < 0.12 and s[1] >= 0:
+                    # a stray link to ports beyond the operations' arity that is removed again at once: afterwards every link attaches
+                    # to an existing port, so the document is within the property's domain - but port counts have been touched
+                    ev = {"a": "AddLink", "i": i, "sn": s[0], "so": 3, "dn": d[0], "do": 4}
+                    stray = {"a": "DeleteLink", "i": i, "sn": s[0], "so": 3, "dn": d[0], "do": 4}
             elif r < 0.75 and links[i]:
                 l0 = rng.choice(links[i])
                 ev = {"a": "DeleteLink", "i": i, "sn": l0[0], "so": l0[1], "dn": l0[2], "do": l0[3]}
@@ -221,11 +241,17 @@ def run_random_histories(ctx: Ctx, focus: str, quick: bool) -> None:
                 continue
             try:
                 ad.apply(ev)
+                if stray is not None and ev["a"] == "AddLink" and ev["so"] == 3:
+                    ad.apply(stray)
             except ImplError as e:
                 ctx.violation({"check": "replay", "action": ev["a"]}, {"hist": hist + [ev]}, "call succeeds", str(e)[:200], clause="HugrStore")
                 ok = False
                 break
             hist.append(ev)
+            if stray is not None and ev["a"] == "AddLink" and ev["so"] == 3:
+                hist.append(stray)
+                stray = None
+                continue
             a = ev["a"]
             if a == "AddNode":
                 m = nxt[i]; nxt[i] += 1
